@@ -126,17 +126,31 @@ func (p *PES) Bytes() []byte {
 			out = append(out, p.OptFill)
 		}
 	}
+	// the fields are filled with OptFill in their value bits; reserved and marker bits are 1 and the values are legal ones
+	// (ESCR_extension at most 299, ES_rate not 0), as in a well-formed header
 	if p.ESCR {
 		fill(6)
+		e := out[len(out)-6:]
+		e[0] |= 0xC4
+		e[2] |= 0x04
+		e[4] = e[4]&^0x02 | 0x04 // ESCR_extension bit 8 clear: at most 255
+		e[5] |= 0x01
 	}
 	if p.ESRate {
 		fill(3)
+		e := out[len(out)-3:]
+		e[0] |= 0x80
+		e[2] |= 0x01
+		if e[0]&0x7F == 0 && e[1] == 0 && e[2]&0xFE == 0 {
+			e[1] = 1
+		}
 	}
 	if p.Trick {
 		fill(1)
 	}
 	if p.CopyInfo {
 		fill(1)
+		out[len(out)-1] |= 0x80
 	}
 	if p.CRC {
 		fill(2)
